@@ -99,12 +99,24 @@ class Driver:
     def base_fr(self):
         return X.frv(self.m.interpolation.x_base)
 
+    def stored_points(self):
+        """The interpolation set as the solver holds it: x_base + xpt, summed exactly.  After base shifts it differs
+        from the points that were supplied by the rounding of x - x_base (1e-17 absolute), which is 1e-9 of the
+        size of a set of diameter 1e-7 sitting at distance 0.1 from the origin - enough to move a determinant ratio
+        in its 9th digit.  The ratios are those of the set that is stored."""
+        itp = self.m.interpolation
+        bs = X.frv(itp.x_base)
+        return [[bs[c] + Fr(float(itp.xpt[c, i])) for c in range(self.n)] for i in range(self.npt)]
+
     def exact_ratio(self, k, xn):
         bs = self.base_fr()
         Pn = [p[:] for p in self.P]
         Pn[k] = X.frv(xn)
-        d_old = X.exact_det(X.kkt(X.rel(self.P, bs)))
-        d_new = X.exact_det(X.kkt(X.rel(Pn, bs)))
+        Ps = self.stored_points()
+        Psn = [p[:] for p in Ps]
+        Psn[k] = X.frv(xn)
+        d_old = X.exact_det(X.kkt(X.rel(Ps, bs)))
+        d_new = X.exact_det(X.kkt(X.rel(Psn, bs)))
         if d_old == 0:
             return None, Pn
         return d_new / d_old, Pn
@@ -253,6 +265,7 @@ class Driver:
             self.counts["skipped"] += 1
             self.exact_ok = False
             return
+        self.P = self.stored_points()  # the set as stored (x_new - x_base is rounded)
         self.counts["replace"] += 1
         self.counts["ill"] += bool(ill)
         if e > 0:
@@ -269,6 +282,7 @@ class Driver:
             nb = m.interpolation.point(j % self.npt) + np.array(offs[: self.n], float) * (self.diameter() / 32.0)
         before = self.probe_values() if "C13" in self.focus else None
         m.shift_x_base(np.array(nb, float), self.opts)
+        self.P = self.stored_points()  # the set as stored (xpt - shift is rounded)
         self.counts["shift"] += 1
         if before is not None and max(self.kappa_max, self.kappa()) < 1e8:
             after = self.probe_values()
